@@ -433,6 +433,13 @@ func (y *Sys) snapshot(h *upH) stateSnap {
 
 // --- network helpers (root goroutine) ---
 
+// allLinks is a snapshot of every link dialled so far (library goroutines append under s.mu).
+func (y *Sys) allLinks() []*Link {
+	y.s.mu.Lock()
+	defer y.s.mu.Unlock()
+	return append([]*Link(nil), y.s.Net.Links...)
+}
+
 func (y *Sys) aliveLinks() []*Link {
 	y.s.mu.Lock()
 	links := append([]*Link(nil), y.s.Net.Links...)
@@ -451,10 +458,13 @@ func (y *Sys) Pump() {
 	s := y.s
 	for round := 0; round < 10000; round++ {
 		moved := 0
-		for _, l := range s.Net.Links {
+		for _, l := range y.allLinks() {
+			s.mu.Lock()
+			dead := l.isDead
+			s.mu.Unlock()
 			if l.Alive() {
 				moved += l.IngestAll()
-			} else if !l.isDead {
+			} else if !dead {
 				// closed by the client: the broker still sees what was written before
 				moved += l.IngestAll()
 			}
@@ -669,8 +679,11 @@ func (y *Sys) recvCallOp(reply bool) *Op {
 // are still pending (manual replies) stay pending.
 func (y *Sys) flushLinks() int {
 	n := 0
-	for _, l := range y.s.Net.Links {
-		if !l.isDead {
+	for _, l := range y.allLinks() {
+		y.s.mu.Lock()
+		dead := l.isDead
+		y.s.mu.Unlock()
+		if !dead {
 			n += l.IngestAll()
 		}
 	}
